@@ -7,11 +7,14 @@
     declarative name policy (Spec/NameSpec.v) reads at the question offset, as pointer-free wire
     bytes, as wire bytes without the root byte and as lower-cased dotted text, with the two 16-bit
     words that follow the name on the wire as type and class; that decoding is a function of the bytes.
-    The remaining fields (id, opcode, rcode, EDNS version / extended rcode / option count / payload
-    size) are single reads of the bytes by definition of the model; their agreement with the
-    implementation and with independent decoding is decided by the correspondence on every run. *)
+    The EDNS summary the parser stores (C04_edns_summary) is, for every accepted packet: nothing and a
+    payload size of 512 when no OPT record was met; otherwise the start of the OPT data, the number of
+    options that tile it, the advertised payload size, extended rcode, version and flags read from the
+    OPT record's class and TTL bytes.  The remaining fields (id, opcode, rcode) are single reads of
+    the header bytes by definition of the model; their agreement with the implementation is decided by
+    the correspondence on every run. *)
 From DV Require Import Model.Base Model.Parser Model.Header Model.Readers Spec.NameSpec Spec.RecordSpec Proofs.Hoare Proofs.HeaderBits
-  Proofs.SummaryBits Proofs.ReadersLabels Proofs.QuestionSpec.
+  Proofs.SummaryBits Proofs.ReadersLabels Proofs.QuestionSpec Proofs.EdnsFacts.
 Local Open Scope N_scope.
 
 Theorem C04_flags_word : forall w x i, w < 65536 ->
@@ -46,6 +49,10 @@ Theorem C04_question_decoding_unique : forall p ls t c ls' t' c',
   question_of p ls t c -> question_of p ls' t' c' -> ls = ls' /\ t = t' /\ c = c'.
 Proof. exact question_of_fun. Qed.
 Print Assumptions C04_question_decoding_unique.
+
+Theorem C04_edns_summary : forall p v, bytes_ok p -> parse p = Ok v -> esum_v p v.
+Proof. exact parse_esum. Qed.
+Print Assumptions C04_edns_summary.
 
 (** Non-vacuity: a query for "Ab.c" AAAA whose name is accepted; the text getter lower-cases it. *)
 Example C04_sample_question :
